@@ -5,7 +5,7 @@ use super::value::Value;
 
 const MAX_DEPTH: usize = 48;
 /// a snapshot stops growing past this many bytes (the tail is replaced by a marker)
-const MAX_BYTES: usize = 1 << 20;
+const MAX_BYTES: usize = 1 << 18;
 
 pub(crate) fn snap_number(n: f64) -> String {
     if n.is_nan() {
